@@ -101,6 +101,7 @@
 #define JW_META_BH g_bh1
 
 #define JW_WANT_FREAD
+#define JW_WANT_MEMCPY16
 #include "jw_stubs.h"
 
 static struct jw_ghost jw_on_read(struct jw_ghost g, struct buffer_head *bh, unsigned long long logical)
